@@ -161,6 +161,12 @@ class SymB:
     def copy(self, a):
         return shim.NP.array(a)
 
+    def inv(self, A):
+        return shim.NP.LA.inv(shim._obj(A))
+
+    def cholesky_lower(self, A):
+        return shim.NP.LA.cholesky(shim._obj(A), lower=True)
+
 
 class RealB:
     sym = False
@@ -342,6 +348,12 @@ class RealB:
 
     def copy(self, a):
         return _np.array(a)
+
+    def inv(self, A):
+        return _np.linalg.inv(_np.array(A, dtype=float))
+
+    def cholesky_lower(self, A):
+        return _np.linalg.cholesky(_np.array(A, dtype=float))
 
 
 # --------------------------------------------------------------------------------------
